@@ -23,7 +23,7 @@ COMPONENTS = {
     'stub': ['OS thread scheduling', 'time.perf_counter / time.sleep (virtual clock; sleep returns exactly on time)', 'underlying streams with seeded latency', 'object store (profile 2)'],
 }
 ASSUMPTIONS = ['sleep returns exactly on time and runnable threads are not descheduled for measurable time (negative debt after an oversleep is not capped by the limiter: reported as information in DESIGN.md, not as a violation)', 'request sizes d <= L/4 as the commands choose (limit // (16*concurrency))']
-PROBES = ['multi_stream', 'latency_comparable', 'slept', 'preempted', 'command_profile', 'seek_truncate', 'writes']
+PROBES = ['think_time', 'multi_stream', 'latency_comparable', 'slept', 'preempted', 'command_profile', 'seek_truncate', 'writes']
 TIERS = {'quick': {'budget_s': 45, 'batch': 20}, 'thorough': {'budget_s': 600, 'batch': 40}}
 
 
@@ -51,7 +51,9 @@ def gen_case(seed, tier):
                 reqs.append(rng.randrange(1, 4))
             else:
                 reqs.append(rng.randrange(1, dmax + 1))
-        streams.append({'reqs': reqs, 'lat': lat, 'lat_kind': rng.choice(['const', 'uniform', 'burst']), 'chain': rng.random() < 0.4})
+        streams.append({'reqs': reqs, 'lat': lat, 'lat_kind': rng.choice(['const', 'uniform', 'burst']), 'chain': rng.random() < 0.4,
+                        # time the consumer spends between two calls (sending the block on, a slow peer)
+                        'think': rng.choice([0, 0, 0, 0.5 * dmax / L, 2 * dmax / L])})
     return {'seed': seed, 'sched_seed': seed, 'kind': 'pump', 'L': L, 'dir': rng.choice(['read', 'read', 'write']), 'streams': streams,
             'opts': world.SchedOpts.swarm(rng, step_cap=2_000_000, time_cap=10**9).as_dict()}
 
@@ -114,7 +116,8 @@ def run_pump(case):
     saved_time = U.time
     U.time = types.SimpleNamespace(
         perf_counter=lambda: (log.append(('pc', s.cur().id, s.now)), s.now)[1],
-        sleep=lambda d: (log.append(('sleep', s.cur().id, s.now, d)), s.sleep_exact(d))[1])
+        sleep=lambda d: (log.append(('sleep', s.cur().id, s.now, d)), s.sleep_exact(d))[1],
+        monotonic=lambda: s.now, time=lambda: s.now, perf_counter_ns=lambda: int(s.now * 1e9), monotonic_ns=lambda: int(s.now * 1e9))
     install.begin(s, env)
     viol, probes = [], {}
     L = case['L']
@@ -134,6 +137,8 @@ def run_pump(case):
             if case['dir'] == 'read':
                 for d in st['reqs']:
                     got += w.read(d)
+                    if st.get('think'):
+                        s.sleep(st['think'])
                 # seek through the chain rewinds the underlying stream
                 if st['chain']:
                     pos = w.seek(0)
@@ -144,6 +149,8 @@ def run_pump(case):
                 for d in st['reqs']:
                     w.write(payload[pos:pos + d])
                     pos += d
+                    if st.get('think'):
+                        s.sleep(st['think'])
                 if st['chain']:
                     new = w.truncate(max(0, len(payload) - 3))
                     results[(i, 'truncate')] = (new, len(src.out.getvalue()), max(0, len(payload) - 3))
@@ -195,6 +202,8 @@ def run_pump(case):
         probes['slept'] = 1
     if n > 1:
         probes['multi_stream'] = 1
+    if any(st.get('think') for st in case['streams']):
+        probes['think_time'] = 1
     if any(st['lat'] and 0.2 <= st['lat'] / (dmax / L) <= 5 for st in case['streams']):
         probes['latency_comparable'] = 1
     if s.preemptions:
